@@ -41,7 +41,10 @@ RULE = ("sequential histories of 5-80 ops (QueryRow 30%, QueryRowIndex 20% [Cach
         "already cancelled context (cached and uncached keys); at the CachedConn level the query callbacks read the database "
         "through the sqlx session kinds over sqlmock (conn, prepared statement, transaction, statement prepared in a "
         "transaction) or a map, with the row present, missing, or the database failing (3%); failing deletes are issued "
-        "from other goroutines / OS threads with runtime.GC() in between, Redis-down faults use miniredis SetError; in 70% of the node / cluster histories the cleaner runs "
+        "from other goroutines / OS threads with runtime.GC() in between, 20-60% of them under a request-scoped context that is "
+        "cancelled as soon as the call returns; the CachedConn is built by NewConnWithCache, NewNodeConn or NewConn; in 20% of "
+        "the constructor-built caches WithExpire / WithNotFoundExpire get 0 or a negative duration (= the default); exec "
+        "callbacks return nil, a result with 1 or 0 rows affected, or one whose RowsAffected fails; Redis-down faults use miniredis SetError; in 70% of the node / cluster histories the cleaner runs "
         "on a real collection.TimingWheel (1 s x 300 slots, fake ticker ticked once per virtual second, chains driven to "
         "the 1 h stage), otherwise on the abstract timer; jitter draws u=m/1024 scripted per op; the TTL of every key is read back from miniredis after "
         "every op (0 = no expiry); ~22% of the histories inject GET/SET/DEL faults per "
@@ -193,13 +196,20 @@ def gen_case(rng, level, faulty, long_chain=False, long_ttl=False):
             if wj[0] != "fail":
                 db = new
             ops.append({"op": "exec", "w": wj, "keys": keys})
+            if level == "sqlc":
+                # what the exec callback returns beside nil: nothing, 1 row affected, 0 rows affected, unknown
+                ops[-1]["res"] = rng.choice(["", "one", "zero", "zero", "err"])
             if level != "sqlc" and rng.random() < 0.4:
                 ops[-1]["go"] = True      # the delete is issued from a goroutine of its own (another OS thread)
+            if level != "sqlc" and rng.random() < (0.6 if delfault else 0.2):
+                ops[-1]["ctxc"] = True    # request-scoped context, cancelled as soon as the call has returned
         elif r < 0.75:
             ks = rng.sample(_universe(), rng.randint(0, 3))
             ops.append({"op": "del", "keys": ks})
             if level != "sqlc" and rng.random() < 0.4:
                 ops[-1]["go"] = True
+            if level != "sqlc" and rng.random() < (0.6 if delfault else 0.2):
+                ops[-1]["ctxc"] = True
         elif r < 0.80:
             k = rng.choice(_universe()) if level == "sqlc" else ["pk", rng.randrange(NPK)]
             v = _view(db, k)
@@ -227,6 +237,11 @@ def gen_case(rng, level, faulty, long_chain=False, long_ttl=False):
             if o["op"] == "adv" and level == "sqlc" and rng.random() < 0.3:
                 o["dt"] = rng.choice([expire // 2, expire * 19 // 20 - 1, expire * 19 // 20 + 1, expire * 21 // 20 + 6, nfexpire, DAY])
     c = {"level": level, "expire": expire, "nfexpire": nfexpire, "nnodes": nn, "ops": ops}
+    if level == "sqlc":
+        c["ctor"] = rng.choice(["", "nodeconn", "conn"])
+        c["opts"] = "both"
+        if rng.random() < 0.15:
+            c["opts"] = rng.choice(["e", "n", "none"])
     if level in ("node", "cluster"):
         # how the cache is built (struct literals / cache.New with a Config of nn nodes / cache.NewNode) and which
         # options it gets; an option that is not passed leaves the package default
@@ -238,6 +253,13 @@ def gen_case(rng, level, faulty, long_chain=False, long_ttl=False):
                 c["expire"] = 7 * DAY
             if c["opts"] in ("e", "none"):
                 c["nfexpire"] = 60
+    if (level == "sqlc" or c.get("ctor") in ("new", "newnode")) and rng.random() < 0.2:
+        # option boundary values: a duration <= 0 handed to WithExpire / WithNotFoundExpire means "the default"
+        if c["opts"] in ("both", "e") and rng.random() < 0.7:
+            c["expire"] = rng.choice([0, 0, -1, -3600])
+        if c["opts"] in ("both", "n") and rng.random() < 0.7:
+            c["nfexpire"] = rng.choice([0, 0, -1, -60])
+    if level in ("node", "cluster"):
         # the cleaner on the real timing wheel (fake ticker) or on the abstract timer played by the driver
         c["wheel"] = "real" if rng.random() < 0.7 else "abs"
         if c["wheel"] == "real":
@@ -422,6 +444,32 @@ def search(rng, problems):
             ops += [{"op": "del", "keys": [["pk", 0]]}, {"op": "qrowc", "id": 0, "u": [512]}, {"op": "qrow", "id": 0, "u": [7]},
                     {"op": "set", "key": ["pk", 3], "val": ["row", 3, 2, 9], "u": [1023]}, {"op": "adv", "dt": 1}]
             out.append({"level": level, "expire": e, "nfexpire": nfe, "nnodes": nn, "ops": ops, "ctor": ctor, "opts": opts, "wheel": "real"})
+    # option boundary values through every constructor
+    for e, nfe in ((0, 0), (-1, -60), (0, 10), (100, 0)):
+        base = [{"op": "exec", "w": ["put", 1, 0, 7], "keys": [["pk", 1], ["ix", 0]]}, {"op": "qrow", "id": 1, "u": [0]},
+                {"op": "qrow", "id": 2, "u": [1023]}, {"op": "set", "key": ["pk", 3], "val": ["row", 3, 2, 9], "u": [512]}]
+        for ctor in ("", "nodeconn", "conn"):
+            out.append({"level": "sqlc", "expire": e, "nfexpire": nfe, "nnodes": 1, "ctor": ctor, "opts": "both",
+                        "ops": base + [{"op": "qidx", "ix": 0, "u": [5, 6]}, {"op": "qidx", "ix": 1, "u": [5, 6]}]})
+        for level, ctor, nn in (("node", "new", 1), ("node", "newnode", 1), ("cluster", "new", 3)):
+            out.append({"level": level, "expire": e, "nfexpire": nfe, "nnodes": nn, "ctor": ctor, "opts": "both", "wheel": "real",
+                        "ops": base + [{"op": "adv", "dt": 1}]})
+    # a delete that fails under a request-scoped context which is cancelled right after: the retries still run
+    for level, nn in (("node", 1), ("cluster", 3)):
+        for wheel in ("real", "abs"):
+            out.append({"level": level, "expire": 100, "nfexpire": 10, "nnodes": nn, "ctor": "new", "opts": "both", "wheel": wheel, "ops": [
+                {"op": "exec", "w": ["put", 1, 0, 7], "keys": [["pk", 1]]}, {"op": "qrow", "id": 1, "u": [5]}, {"op": "qrow", "id": 2, "u": [5]},
+                {"op": "fault", "node": -1, "g": False, "s": False, "d": True},
+                {"op": "exec", "w": ["put", 1, 0, 8], "keys": [["pk", 1]], "ctxc": True}, {"op": "del", "keys": [["pk", 2]], "ctxc": True, "go": True},
+                {"op": "adv", "dt": 2}, {"op": "fault", "node": -1, "g": False, "s": False, "d": False}, {"op": "adv", "dt": 5},
+                {"op": "qrow", "id": 1, "u": [5]}, {"op": "adv", "dt": 1}]})
+    # exec callbacks returning every kind of result while the key is cached
+    for res in ("", "one", "zero", "err"):
+        out.append({"level": "sqlc", "expire": 100, "nfexpire": 10, "nnodes": 1, "ops": [
+            {"op": "exec", "w": ["put", 1, 0, 7], "keys": [["pk", 1], ["ix", 0]], "res": res}, {"op": "qrow", "id": 1, "u": [5]},
+            {"op": "qidx", "ix": 0, "u": [5, 6]}, {"op": "exec", "w": ["put", 1, 0, 8], "keys": [["pk", 1]], "res": res},
+            {"op": "qrow", "id": 1, "u": [5]}, {"op": "exec", "w": ["del", 1], "keys": [["pk", 1], ["ix", 0]], "res": res},
+            {"op": "qrow", "id": 1, "u": [5]}, {"op": "qidx", "ix": 0, "u": [5, 6]}]})
     # every session kind x {row exists, missing, failing database}, second read of the missing row
     for via in ("", "conn", "stmt", "tx", "txstmt"):
         out.append({"level": "sqlc", "expire": 100, "nfexpire": 10, "nnodes": 1, "ops": [
@@ -573,7 +621,7 @@ def encode_conc(case, obs):
     head = "mkcase 3%%nat %s %s 1%%nat [] [] [] [] 0%%Z %s %s" % (cZ(case["expire"]), cZ(case["nfexpire"]), threads, sched)
     more = clist([cpair(cnat(i), clist([ccop(f) for f in t["then"]])) for i, t in enumerate(case["threads"]) if t.get("then")])
     if not isinstance(obs, dict) or "events" not in obs or obs.get("aborted"):
-        return head + " [OStart 0 0; OStart 0 0; OEv (CA.EQBegin 0 0); OEv (CA.EQBegin 0 0)] [] [] [] " + more   # fails both checkers
+        return head + " [OStart 0 0; OStart 0 0; OEv (CA.EQBegin 0 0); OEv (CA.EQBegin 0 0)] [] [] [] " + more + " true true"   # fails both checkers
     evs = []
     for kind, t, k, v in obs["events"]:
         if kind == 0:
@@ -609,13 +657,14 @@ def encode_conc(case, obs):
             res.append(clist([one(r, ops[min(j, len(ops) - 1)]["key"]) for j, r in enumerate(rs)]))
     cache = clist([copt(None if v is None else cnat(v if v >= 0 else 4999)) for v in obs["cache"]])
     db = clist([cnat(v) for v in obs["db"]])
-    return "%s %s %s %s %s %s" % (head, clist(evs), clist(res), cache, db, more)
+    return "%s %s %s %s %s %s true true" % (head, clist(evs), clist(res), cache, db, more)
 
 
 def encode(case, obs):
     if case["level"] == "conc":
         return encode_conc(case, obs)
-    return encode_seq(case, obs) + " " + CONC_NONE
+    opts = case.get("opts") or "both"
+    return "%s %s %s %s" % (encode_seq(case, obs), CONC_NONE, cbool(opts in ("both", "e")), cbool(opts in ("both", "n")))
 
 
 def encode_seq(case, obs):
@@ -707,13 +756,23 @@ def bucket(case, obs):
             out.append("conc:stale-entry-after-race")
         return out
     out = ["level:" + case["level"], "ops<=%d" % (((len(case["ops"]) + 19) // 20) * 20)]
-    if case.get("ctor"):
+    if case["level"] == "sqlc":
+        out.append("sqlc-ctor:%s/%s" % (case.get("ctor") or "withcache", case.get("opts") or "both"))
+        for o in case["ops"]:
+            if o["op"] == "exec" and o.get("res"):
+                out.append("exec-result:" + o["res"])
+    for name in ("expire", "nfexpire"):
+        if case[name] <= 0 and (case.get("opts") or "both") in ("both", name[0]):
+            out.append("option<=0:%s" % name)
+    if any(o.get("ctxc") for o in case["ops"]):
+        out.append("delete-under-request-context")
+    if case.get("ctor") and case["level"] != "sqlc":
         out.append("ctor:%s/%s%s" % (case["ctor"], case.get("opts"), "/%d-nodes" % case["nnodes"] if case["level"] == "cluster" else ""))
         out.append("wheel:" + case.get("wheel", "abs"))
     for name, e in (("expire", case["expire"]), ("nfexpire", case["nfexpire"])):
         if e >= 3600:
             out.append("%s:%s" % (name, "%dd" % (e // DAY) if e >= DAY else "1h"))
-    if case["expire"] >= 3600 and isinstance(obs, dict) and "ops" in obs:
+    if isinstance(obs, dict) and "ops" in obs:
         if any(d[3] > 0 for o in obs["ops"] for d in o["dump"]):
             out.append("ttl-read-back")
         if any(d[3] == 0 for o in obs["ops"] for d in o["dump"]):
